@@ -233,6 +233,18 @@ func c14Eval(c *C14Case, al align.Alignment) *statSet {
 	s.d("NumMutationsUniquePerSequence", fmt.Sprint(m1, m2, m3, merr))
 	g1, g2, g3, gerr = al.NumGapsUniquePerSequence(nil)
 	s.d("NumGapsUniquePerSequence(nil)", fmt.Sprint(g1, g2, g3, gerr))
+	// the count profile as a table, for the definition check
+	var pt []string
+	for i := 0; i < prof.NbCharacters(); i++ {
+		nm, _ := prof.NameAt(i)
+		cs, _ := prof.CountsAt(i)
+		pt = append(pt, fmt.Sprintf("%c%v", nm, cs))
+	}
+	sort.Strings(pt)
+	s.d("CountProfile.sorted", strings.Join(pt, ";"))
+	ad2 := append([]string{}, ad...)
+	sort.Strings(ad2)
+	s.d("CountDifferences.all.sorted", fmt.Sprint(ad2))
 	seqObjs := al.Sequences()
 	if c.Ref >= 0 && c.Ref < len(seqObjs) {
 		ref := seqObjs[c.Ref]
@@ -618,6 +630,136 @@ func (c14) Run(ctx *Ctx, ci interface{}) (o Outcome) {
 			}
 			o.Add("pssm_columns_checked", int64(L))
 		}
+	}
+	if !hasLower {
+		// unique characters, count profile, unique gaps / residues per row, differences to the first row, alleles
+		var uc []byte
+		for ch := range total {
+			uc = append(uc, ch)
+		}
+		sort.Slice(uc, func(i, j int) bool { return uc[i] < uc[j] })
+		got := []byte(s0.disc["UniqueCharacters"])
+		sort.Slice(got, func(i, j int) bool { return got[i] < got[j] })
+		if string(got) != string(uc) {
+			o.Fail("definition:UniqueCharacters", "characters present: %q, UniqueCharacters says %q\n%s", uc, got, desc())
+			return
+		}
+		prof := map[byte][]int{}
+		ugaps := make([]int, n)
+		umuts := make([]int, n)
+		zeros := make([]int, n)
+		allelesA, allelesB, sitesA, sitesB := 0, 0, 0, 0
+		for site := 0; site < L; site++ {
+			cnt := map[byte]int{}
+			for i := 0; i < n; i++ {
+				ch := a.Seqs[i][site]
+				cnt[ch]++
+				if prof[ch] == nil {
+					prof[ch] = make([]int, L)
+				}
+				prof[ch][site]++
+			}
+			kA, kB := 0, 0
+			for ch := range cnt {
+				if ch == '-' || ch == '.' || ch == '*' {
+					continue
+				}
+				kA++
+				if ch != 'N' && ch != 'X' {
+					kB++
+				}
+			}
+			allelesA += kA
+			allelesB += kB
+			if kA > 0 {
+				sitesA++
+			}
+			if kB > 0 {
+				sitesB++
+			}
+			for i := 0; i < n; i++ {
+				ch := a.Seqs[i][site]
+				if cnt[ch] != 1 {
+					continue
+				}
+				if ch == '-' {
+					ugaps[i]++
+				} else if ch != allc {
+					umuts[i]++
+				}
+			}
+		}
+		var pt []string
+		for ch, cs := range prof {
+			pt = append(pt, fmt.Sprintf("%c%v", ch, cs))
+		}
+		sort.Strings(pt)
+		if got := s0.disc["CountProfile.sorted"]; got != strings.Join(pt, ";") {
+			o.Fail("definition:CountProfile", "counts per character and site are %s, the count profile says %s\n%s", strings.Join(pt, ";"), got, desc())
+			return
+		}
+		if got, want := s0.disc["NumGapsUniquePerSequence(nil)"], fmt.Sprint(ugaps, zeros, zeros, nil); got != want {
+			o.Fail("definition:NumGapsUniquePerSequence", "gaps that are alone in their column, per row: %s by definition, %s reported (uniques, new, both, error)\n%s", want, got, desc())
+			return
+		}
+		if got, want := s0.disc["NumGapsUniquePerSequence"], fmt.Sprint(ugaps, zeros, zeros, nil); got != want {
+			o.Fail("definition:NumGapsUniquePerSequence", "with the alignment's own profile: %s by definition, %s reported\n%s", want, got, desc())
+			return
+		}
+		if got, want := s0.disc["NumMutationsUniquePerSequence"], fmt.Sprint(umuts, zeros, zeros, nil); got != want {
+			o.Fail("definition:NumMutationsUniquePerSequence", "residues that are alone in their column (N/X and gaps left out), per row, with the alignment's own profile: %s by definition, %s reported\n%s", want, got, desc())
+			return
+		}
+		avg := func(al, st int) float64 { return float64(al) / float64(st) }
+		gotAvg := s0.floats["AvgAllelesPerSite"][0]
+		okAvg := false
+		for _, w := range []float64{avg(allelesA, sitesA), avg(allelesB, sitesB), avg(allelesA, sitesB), avg(allelesB, sitesA)} {
+			if (math.IsNaN(w) && math.IsNaN(gotAvg)) || math.Abs(w-gotAvg) < 1e-12 {
+				okAvg = true
+			}
+		}
+		if !okAvg {
+			o.Fail("definition:AvgAllelesPerSite", "average number of alleles per site: %v reported, %v by definition (%v when N/X are not alleles)\n%s", gotAvg, avg(allelesA, sitesA), avg(allelesB, sitesB), desc())
+			return
+		}
+		if n >= 2 {
+			allSet := map[string]bool{}
+			var per []string
+			for i := 1; i < n; i++ {
+				m := map[string]int{}
+				for site := 0; site < L; site++ {
+					if a.Seqs[0][site] != a.Seqs[i][site] {
+						k := string([]byte{a.Seqs[0][site], a.Seqs[i][site]})
+						m[k]++
+						allSet[k] = true
+					}
+				}
+				ks := make([]string, 0, len(m))
+				for k := range m {
+					ks = append(ks, k)
+				}
+				sort.Strings(ks)
+				x := ""
+				for _, k := range ks {
+					x += fmt.Sprintf("%s=%d,", k, m[k])
+				}
+				per = append(per, x)
+			}
+			var all []string
+			for k := range allSet {
+				all = append(all, k)
+			}
+			sort.Strings(all)
+			if got := s0.disc["CountDifferences.all.sorted"]; got != fmt.Sprint(all) {
+				o.Fail("definition:CountDifferences", "differences to the first row: %v by definition, %s reported\n%s", all, got, desc())
+				return
+			}
+			if got := s0.disc["CountDifferences.perseq"]; got != strings.Join(per, "|") {
+				o.Fail("definition:CountDifferences", "differences to the first row per sequence: %s by definition, %s reported\n%s", strings.Join(per, "|"), got, desc())
+				return
+			}
+		}
+		o.Add("extra_definitions_checked", 1)
 	}
 	if !hasLower && c.Ref >= 0 && c.Ref < n {
 		// substitutions / insertions / deletions against the reference row, from the
